@@ -4,7 +4,7 @@
  * container (any free of it would violate the clause) and is no longer in the view; to_array,
  * get_keys / get_values / get_pairs results are fresh blocks / fresh copies owned by the caller;
  * set stores copies: the caller's key and value are outside its assigns and frees clauses.
- * The heavy ones are thorough-tier only (identical proofs already run under C02 / C03). */
+ * (All of them run in the quick tier: a C06 seed in set / remove must be caught by ./check C06.) */
 /*@unit
 name: array_remove_at.transfer
 define: U_REMOVE_AT
@@ -15,7 +15,6 @@ enforce: spif_array_remove_at
 backend: sat
 flags: --slice-formula
 timeout: 600
-quick: no
 */
 /*@unit
 name: array_remove.transfer
@@ -27,7 +26,6 @@ enforce: spif_array_remove
 backend: sat
 flags: --slice-formula
 timeout: 600
-quick: no
 loops: 1
 */
 /*@unit
@@ -53,7 +51,6 @@ enforce: spif_array_map_remove
 backend: sat
 flags: --slice-formula
 timeout: 600
-quick: no
 loops: 1
 */
 /*@unit
@@ -74,7 +71,6 @@ native: array_map
 native_includes: array.c
 enforce: spif_array_get_pairs
 backend: sat
-quick: no
 loops: 1
 */
 /*@unit
@@ -88,7 +84,6 @@ replace: spif_array_insert
 backend: sat
 flags: --slice-formula
 timeout: 600
-quick: no
 loops: 1
 */
 #if defined(U_MREMOVE) || defined(U_GET_KEYS) || defined(U_GET_PAIRS) || defined(U_SET)
